@@ -1,20 +1,27 @@
 (* Correspondence cases for C24: the real Go helpers against the translated definitions and against exact arithmetic. *)
 From Coq Require Import List ZArith Bool.
 Require Import MTX.Lib.IntWrap MTX.Model.C24_MulDiv.
-Require Export MTXGen.C24_Sites.
+Require Export MTX.Model.C24_Inline.
+Require Export MTXGen.C24_Sites MTXGen.C24_Inline.
 Import ListNotations.
 Local Open Scope Z_scope.
 
 Inductive case :=
 | K3 (f : Z -> Z -> Z -> Z) (v m d obs : Z)          (* f(v, m, d) returned obs *)
 | KTo (f : Z -> Z -> Z) (t rate obs : Z)             (* ticks -> ns *)
-| KFrom (f : Z -> Z -> Z) (d rate obs : Z).          (* ns -> ticks *)
+| KFrom (f : Z -> Z -> Z) (d rate obs : Z)           (* ns -> ticks *)
+| KInl (s : inline_site) (a b c obs : Z)             (* an inline a * b / c site, evaluated by its enclosing real function
+                                                        on the operands a b c, yielded obs *)
+| KFact (lo hi obs_lo obs_hi : Z).                   (* a library range fact [lo, hi] used by an inline site, and the extreme
+                                                        values observed over the producer's whole input domain *)
 
 Definition mismatch (c : case) : bool :=
   match c with
   | K3 f v m d obs => negb (f v m d =? obs)
   | KTo f t r obs => negb (f t r =? obs)
   | KFrom f d r obs => negb (f d r =? obs)
+  | KInl s a b c obs => negb (is_f s a b c =? obs)
+  | KFact _ _ _ _ => false
   end.
 
 Definition ok_rate (r : Z) : bool := (1 <=? r) && (r <=? 4294967296).
@@ -31,4 +38,10 @@ Definition spec_fail (c : case) : bool :=
   | K3 _ v m d obs => negb (exact_or_free v m d obs)
   | KTo _ t r obs => negb (exact_or_free t 1000000000 r obs)
   | KFrom _ d r obs => negb (exact_or_free d r 1000000000 obs)
+  (* inline site: divisor non-zero and exact result representable in the expression's type -> the observed value is it *)
+  | KInl s a b c obs =>
+      let e := Z.quot (a * b) c in
+      negb (c =? 0) && in_rngb e (is_res s) && negb (obs =? e)
+  (* range fact: the real producer stays inside the range the theorem assumes *)
+  | KFact lo hi obs_lo obs_hi => (obs_lo <? lo) || (hi <? obs_hi) || (obs_hi <? obs_lo)
   end.
